@@ -19,7 +19,6 @@ import (
 	"time"
 
 	"github.com/slackhq/nebula/cert"
-	"github.com/slackhq/nebula/cert/p256"
 	"golang.org/x/crypto/cryptobyte"
 	"golang.org/x/crypto/cryptobyte/asn1"
 	"google.golang.org/protobuf/proto"
@@ -458,7 +457,7 @@ func TwinFingerprint(c cert.Certificate) (string, error) {
 	if c.Curve() != cert.Curve_P256 {
 		return "", nil
 	}
-	sw, err := p256.Swap(c.Signature())
+	sw, err := SwapSig(c.Signature())
 	if err != nil {
 		return "", err
 	}
